@@ -267,4 +267,54 @@ theorem locOverlapOk_mono (gs : List Loc) (pad : Int) (l r : Loc)
   simp only [exonOverlap] at this ⊢
   omega
 
+/-! ### the final `sorted(new_features)` -/
+
+theorem insertLoc_perm (x : Loc) (l : List Loc) : (insertLoc x l).Perm (x :: l) := by
+  induction l with
+  | nil => exact List.Perm.refl _
+  | cons y ys ih =>
+    unfold insertLoc
+    split
+    · exact ((List.Perm.cons y ih).trans (List.Perm.swap x y ys))
+    · exact List.Perm.refl _
+
+theorem sortLocs_perm (l : List Loc) : (sortLocs l).Perm l := by
+  induction l with
+  | nil => exact List.Perm.refl _
+  | cons x xs ih =>
+    show (insertLoc x (sortLocs xs)).Perm (x :: xs)
+    exact (insertLoc_perm x _).trans (List.Perm.cons x ih)
+
+theorem insertLoc_sorted (x : Loc) (l : List Loc)
+    (h : l.Pairwise fun a b => Lookup.locLt b a = false) :
+    (insertLoc x l).Pairwise fun a b => Lookup.locLt b a = false := by
+  induction l with
+  | nil => exact List.pairwise_singleton _ _
+  | cons y ys ih =>
+    unfold insertLoc
+    rw [List.pairwise_cons] at h
+    split
+    · rename_i hyx
+      refine List.Pairwise.cons ?_ (ih h.2)
+      intro z hz
+      rcases List.mem_cons.1 ((insertLoc_perm x ys).mem_iff.1 hz) with rfl | hz
+      · rw [Lookup.locLt_true_iff] at hyx
+        rw [Lookup.locLt_false_iff]
+        omega
+      · exact h.1 z hz
+    · rename_i hyx
+      have hyx' : Lookup.locLt y x = false := by simpa using hyx
+      refine List.Pairwise.cons ?_ (List.Pairwise.cons h.1 h.2)
+      intro z hz
+      rcases List.mem_cons.1 hz with rfl | hz
+      · exact hyx'
+      · have := h.1 z hz
+        rw [Lookup.locLt_false_iff] at this hyx' ⊢
+        omega
+
+theorem sortLocs_sorted (l : List Loc) : (sortLocs l).Pairwise fun a b => Lookup.locLt b a = false := by
+  induction l with
+  | nil => exact List.Pairwise.nil
+  | cons x xs ih => exact insertLoc_sorted x _ ih
+
 end ASV.Orf
